@@ -54,6 +54,12 @@ META = {
                      "equalities and key rejection as postconditions. The pure container semantics (arbitrary record/overwrite sequences, deep copies) are a bounded reference-model test.",
                 note=PROOF_NOTE + " IterationHistory.record is used through an assumed contract whose conformance is bounded-checked (replay/history_model.py); deep-copy is a structural scan "
                      "plus that bounded test because pyvc models array values functionally (no aliasing). For noisy targets the 'value observed at the recorded point' clause is bounded (panel)."),
+    "C05": dict(level="proof",
+                text="The noisy-target bookkeeping as postconditions over ghost sequences of the target's calls (k-th argument, k-th returned value/SD): noise detected iff the two "
+                     "starting-point values differ by more than tol_noise; the final samples are the last calls, all at the returned x; yval_vec/ysd_vec are exactly their returned values; "
+                     "fval/fsd are mean and standard error of yval_vec; the returned x is an earlier recorded iterate; the sample reserve is carved out of the budget.",
+                note=PROOF_NOTE + " mean/std are uninterpreted functions of the vector (the clause is that the code applies them to exactly that vector). The supplementary SD entry of ysd_vec "
+                     "when only one final sample is configured is checked by the bounded panel only."),
     "C04": dict(level="proof",
                 text="For deterministic targets the returned point is a logged evaluation with exactly the logged value and no logged value is lower: an invariant "
                      "(incumbent logged, minimal, fval == yval, fsd == 0) proved for the initial design, every search step, every poll loop iteration and the main loop, "
